@@ -69,7 +69,7 @@ CLAIMS = {
         "Decides the necessary condition for schedule independence: the only state that outlives one decoder invocation is "
         "either keyed first by the emitting thread's id or one of the frozen by-design global tables; no scalar slot is "
         "written by one invocation and read by another; no module/class-level object is mutated; a name record files its text "
-        "under the pid of the emitting thread's own pending data record, and no decoder does anything else to the name table (both taken over from C14/R4). Equality of per-thread "
+        "under the pid of the emitting thread's own pending data record, and no decoder does anything else to the name table (both taken over from C14/R4); no constructor keeps a mutable default argument. Equality of per-thread "
         "results across interleavings is argued from this, not checked.",
         "The by-design tables (threads_pids, pids_names, global_strings, tids_names, dyld_*) are excluded by the property's own "
         "quantifier; they are frozen in the rule with reasons.",
@@ -84,7 +84,7 @@ CLAIMS = {
         "counts as one; the premise that from_kd_buf rejects a buffer that is not a whole record (whole-buffer struct.unpack of "
         "KEVENT_SIZE bytes, or an explicit length check) is an obligation of its own; a list comprehension over the stream "
         "counts as one - or reordering; print_with_count tests "
-        "the count before printing); the framing rules of a version-2 dump (one read(64) per iteration, no seek that moves the stream) are taken over from C02/R1. Prefix equality itself follows from laziness + determinism and is argued, not checked.",
+        "the count before printing); the framing rules of a version-2 dump (one read(64) per iteration, no seek that moves the stream) are taken over from C02/R1, that traces() builds a trace decoder of its own per request from C13/R5. Prefix equality itself follows from laziness + determinism and is argued, not checked.",
         "Read cost inside construct is trusted to be linear.",
         "DESIGN.md §4 C06"),
     "C07": (
@@ -155,7 +155,7 @@ CLAIMS = {
         "tid 0 and empty lists. No facade method rebinds or updates (in-place `+=` on an alias included) the filter_* "
         "objects the predicates read, so the statement also holds after any history of other requests. A stage written as a "
         "generator method yields the loop element at most once per iteration (two yields whose path conditions can hold "
-        "together list an element twice). CLI option wiring is checked as well.",
+        "together list an element twice). The filter attributes are not the default objects of constructor parameters (one list for every parser). CLI option wiring is checked as well.",
         "Trusts filter()/generator-expression semantics; predicates outside the small recognised language give exit 2.",
         "DESIGN.md §4 C12"),
     "C13": (
@@ -166,7 +166,7 @@ CLAIMS = {
         "the tool adds on its own is consumed but post-filtered under exactly the same condition, which contains 'not "
         "requested by the caller'; helper conditions equal the specification; process filter predicate equals the "
         "specification; request isolation (the shared tables are cleared unconditionally when a dump's thread map is installed) "
-        "is taken over from C02/R4, the reviewed set of writers of the thread tables from C14/R4, that no decoder counts records of other classes from C08/R6. Textual equality with an unfiltered run is not decided.",
+        "is taken over from C02/R4, the reviewed set of writers of the thread tables from C14/R4, that no decoder counts records of other classes from C08/R6; none of the pipeline classes keeps a mutable default argument. Textual equality with an unfiltered run is not decided.",
         "Trusts filter() semantics and the interpreter; equality of filtered and unfiltered trace text is argued from "
         "C04/C05-style locality, not checked.",
         "DESIGN.md §4 C13"),
@@ -212,7 +212,7 @@ CLAIMS = {
         "findings (repair needs Darwin tables); a decoder that newly depends on a host table, or a new table, is a violation, "
         "while moving a use into a helper changes nothing. The host's time zone is treated the same way: every astimezone / "
         "fromtimestamp call must be given a zone that is not None on any path (a setting that starts as None only under an "
-        "established not-None guard). Quantifies over all hosts because it removes the dependence rather "
+        "established not-None guard). The ctypes types whose width is the host's data model (c_long, c_size_t, ...) count as host sources. Quantifies over all hosts because it removes the dependence rather "
         "than sampling hosts.",
         "Dynamic access (getattr/importlib) is not modelled - the package uses none; an embedded fixture must be flagged on "
         "every run.",
@@ -249,7 +249,7 @@ CLAIMS["C20"] = (
     "those records is evaluated for every id of the bundled code table: every RealFaultAddress* code with a registered decoder "
     "is picked and no code outside that group; launch image list = sorted by "
     "load address over every nested image-map and shared-cache-map record; sampler thread info / user stack present exactly "
-    "when the flag is set and the record exists, None otherwise. That parse_event_list decodes the nested list whatever its later records are is taken over from C04/K9.",
+    "when the flag is set and the record exists, None otherwise. That parse_event_list decodes the nested list whatever its later records are is taken over from C04/K9, that the user stack is made of the words of the nested stack records from C15/R3.",
     "Behaviour under unrelated interleaved records beyond the selection predicates is not decided; the real-fault selection "
     "is by id (judged against the bundled table, not a supplied one).",
     "DESIGN.md §4 C20")
